@@ -141,7 +141,17 @@ func TestC10(t *testing.T) {
 			op := c10Ops[rapid.IntRange(0, len(c10Ops)-1).Draw(t, "op")]
 			c1 := reuse(c10Operand(t, op, 1, w, "a"), "a")
 			c2 := reuse(c10Operand(t, op, 2, w, "b"), "b")
+			if rapid.IntRange(0, 7).Draw(t, "sameOperand") == 0 {
+				c2 = c1 // the very same constant on both sides
+			}
+			snap1, snap2 := string(c1.Bytes()), string(c2.Bytes())
 			e := expr.NewBinary(op, c1, c2, w)
+			eStr := irsem.String(e)
+			defer func() {
+				if string(c1.Bytes()) != snap1 || string(c2.Bytes()) != snap2 {
+					t.Fatalf("ConstFold(%s) modified its constant operands: now %x and %x", eStr, c1.Bytes(), c2.Bytes())
+				}
+			}()
 			var got expr.Expr
 			if msg := catch(func() { got = exprtransform.ConstFold(e) }); msg != "" {
 				t.Fatalf("ConstFold(%s): %s", irsem.String(e), msg)
